@@ -370,7 +370,7 @@ func (c *Ctx) paramConstRange(prm *ssa.Parameter) (int64, int64, bool) {
 // jobs whose Command is COMMAND_PIVOT and Data[0] == DEMON_PIVOT_SMB_COMMAND.
 func R1PivotJobShape(c *Ctx) {
 	const rule = "R1-pivotjob-shape"
-	c.R.Rule(rule, "every Job literal with Command COMMAND_PIVOT whose first Data element is DEMON_PIVOT_SMB_COMMAND has exactly the elements (int, uint32, []byte) that handleDemonAgent indexes and asserts", 2)
+	c.R.Rule(rule, "every Job literal with Command COMMAND_PIVOT whose first Data element is DEMON_PIVOT_SMB_COMMAND has exactly the elements (int, uint32, []byte) that handleDemonAgent indexes and asserts", 1)
 	c.EachFuncDecl(NonYaotl, func(pk *packages.Package, fd *ast.FuncDecl) {
 		ast.Inspect(fd.Body, func(n ast.Node) bool {
 			lit, ok := n.(*ast.CompositeLit)
